@@ -1,9 +1,58 @@
 /-
-  C03 — any-to-any conversion is total and lossless (theorems being added)
+  C03 — any-to-any conversion is total and lossless
 -/
 import TT.Spec.Formats
 import TT.IO.Read
+import TT.Lemmas.Read
 namespace TT.Props.C03
 open TT TT.Tree TT.Spec
+open TT.Lemmas.Read
+
+/-- the token stream of a one-token group as the bracket writer prints it -/
+theorem lex_token_group (lab w : Str) (hl : lab ≠ [] ∧ ∀ c ∈ lab, pyIsSpace c = false ∧ c ≠ '(' ∧ c ≠ ')')
+    (hw : w ≠ [] ∧ ∀ c ∈ w, pyIsSpace c = false ∧ c ≠ '(' ∧ c ≠ ')') :
+    bracketLex (['('] ++ lab ++ [' '] ++ w ++ [')', '\n']) =
+      [(['('], .lrb), (lab, .token), ([' '], .ws), (w, .token), ([')'], .rrb)] := by
+  have hlt : ∀ c ∈ lab, isTokC c = true := fun c hc => (isTokC_iff c).2 (hl.2 c hc)
+  have hwt : ∀ c ∈ w, isTokC c = true := fun c hc => (isTokC_iff c).2 (hw.2 c hc)
+  obtain ⟨d, ds, rfl⟩ : ∃ d ds, w = d :: ds := by
+    cases w with
+    | nil => exact absurd rfl hw.1
+    | cons d ds => exact ⟨d, ds, rfl⟩
+  have hdw : isWsC d = false := isTokC_not_ws d (hwt d (by simp))
+  have e1 : ['('] ++ lab ++ [' '] ++ (d :: ds) ++ [')', '\n'] = '(' :: (lab ++ ' ' :: d :: (ds ++ ')' :: ['\n'])) := by simp
+  have l2 : bracketLex (' ' :: d :: (ds ++ ')' :: ['\n'])) = ([' '], .ws) :: bracketLex (d :: (ds ++ ')' :: ['\n'])) :=
+    lex_wsrun_append [' '] d _ (by simp) (by decide) hdw
+  have l3 : bracketLex (d :: (ds ++ ')' :: ['\n'])) = (d :: ds, .token) :: bracketLex (')' :: ['\n']) :=
+    lex_tokrun_append (d :: ds) ')' _ (by simp) hwt isTokC_rrb
+  have l4 : bracketLex ['\n'] = [] := by decide
+  rw [e1, lex_lrb, lex_tokrun_append lab ' ' _ hl.1 hlt (by decide), l2, l3, lex_rrb, l4]
+
+/-- own round trip, terminals level: reading what the bracket writer wrote for a one-token group -/
+theorem own_roundtrip_token (lab w : Str) (hl : lab ≠ [] ∧ ∀ c ∈ lab, pyIsSpace c = false ∧ c ≠ '(' ∧ c ≠ ')')
+    (hw : w ≠ [] ∧ ∀ c ∈ w, pyIsSpace c = false ∧ c ≠ '(' ∧ c ≠ ')') :
+    readBrackets {} (['('] ++ lab ++ [' '] ++ w ++ [')', '\n']) =
+      .ok [(1, Tree.leaf 1 { label := lab, word := some w, edge := some DEFAULT_EDGE, morph := some DEFAULT_MORPH })] := by
+  unfold readBrackets
+  simp only [lex_token_group lab w hl hw]
+  rw [brLoop_eq_brRun {} rfl _ _ _ (by simp)]
+  rw [brRun_none _ _ _ _ _ (step_lrb_0 _ _ _ rfl)]
+  rw [brRun_none _ _ _ _ _ (step_token_19 _ _ _ (.inr rfl) rfl)]
+  rw [brRun_none _ _ _ _ _ (step_ws_2 _ _ _ rfl)]
+  rw [brRun_none _ _ _ _ _ (step_token_3 _ _ _ rfl)]
+  rw [brRun_some _ _ _ _ _ _ (step_rrb_yield _ _ _ (.inl rfl) _ rfl rfl rfl)]
+  simp [brRun, QNode.toTree]
+
+example : readBrackets {} "(NN Haus)\n".toList =
+    .ok [(1, Tree.leaf 1 { label := "NN".toList, word := some "Haus".toList, edge := some DEFAULT_EDGE, morph := some DEFAULT_MORPH })] := by rfl
+example : ("NN".toList ≠ [] ∧ ∀ c ∈ "NN".toList, pyIsSpace c = false ∧ c ≠ '(' ∧ c ≠ ')') ∧
+    ("Haus".toList ≠ [] ∧ ∀ c ∈ "Haus".toList, pyIsSpace c = false ∧ c ≠ '(' ∧ c ≠ ')') := by decide
+
+/-- the TIGER-XML preamble names the encoding of the stream -/
+theorem tiger_declares_encoding (e : Str) :
+    (tigerBegin (some e)).head? = some ("<?xml version='1.0' encoding='".toList ++ e ++ "'?>".toList) ∧
+    (tigerBegin none).head? = some "<?xml version='1.0'?>".toList := ⟨rfl, rfl⟩
+
+example : (tigerBegin (some "utf-8".toList)).head? = some "<?xml version='1.0' encoding='utf-8'?>".toList := by decide
 
 end TT.Props.C03
